@@ -24,18 +24,24 @@ theorem protect_unprotect_nonce (C : Crypto) (L : C.Laws) (data : Bytes) (keyS k
   decrypt_encrypt C L data keyS keyR sid d b hiv henc
     (fun kek kid hn => C03.kek_agree_nonce C keyS keyR d.kekRnd kek kid hs hr hc hL2 hn)
 
-/-- DH public-key mode: the sender only holds the group public key; the seed holder decrypts. -/
+/-- DH public-key mode: the sender only holds the group public key; the seed holder decrypts.  Both public
+    values must be valid (2 ≤ y ≤ p − 2, SP 800-56A) — the library rejects degenerate ones since fix D15 —
+    and the root key's FFC parameters, when present, name the group of the public key. -/
 theorem protect_unprotect_dh (C : Crypto) (L : C.Laws) (data : Bytes) (keyP keyR : Envelope) (sid : Bytes) (d : Draws) (b : Blob)
     (seed : Bytes) (alg : Hash) (kl p g : Nat)
     (hiv : d.iv.length < 2 ^ 32) (hpub : keyP.isPublicKey = true) (hr : keyR.isPublicKey = false) (hc : C03.SameConfig keyP keyR)
     (hsa : keyP.secretAlgorithm = dhName) (hL2 : ∀ a, computeL2 C a keyP.l1 keyP.l2 keyR = .ok seed)
     (hkl : kl < 2 ^ 32) (hp0 : 0 < p) (hpw : p ≤ 256 ^ kl) (hg : g < 256 ^ kl)
+    (hgrp : keyP.secretParameters = [] ∨ ∃ q, ffcParamsUnpack keyP.secretParameters = .ok q ∧ q.fieldOrder = p ∧ q.generator = g)
+    (hvalid_group : 1 < Py.powMod g (Py.fromBE (C.kdf alg seed kdsServiceLabel (dhName ++ [0, 0]) (Py.ceilDiv8 keyP.privateKeyLength))) p ∧
+      Py.powMod g (Py.fromBE (C.kdf alg seed kdsServiceLabel (dhName ++ [0, 0]) (Py.ceilDiv8 keyP.privateKeyLength))) p < p - 1)
+    (hvalid_eph : 1 < Py.powMod g (Py.fromBE d.kekRnd) p ∧ Py.powMod g (Py.fromBE d.kekRnd) p < p - 1)
     (hkey : ffcKeyPack ⟨kl, p, g, Py.powMod g
         (Py.fromBE (C.kdf alg seed kdsServiceLabel (dhName ++ [0, 0]) (Py.ceilDiv8 keyP.privateKeyLength))) p⟩ = .ok keyP.l2Key)
     (halg : ∀ n, kdfParamsUnpack keyP.kdfParameters = .ok n → hashOfName n = .ok alg)
     (henc : encryptBlobValue C data keyP sid d = .ok b) : decryptBlob C b keyR = .ok data :=
   decrypt_encrypt C L data keyP keyR sid d b hiv henc
-    (fun kek kid hn => C03.kek_agree_dh C keyP keyR d.kekRnd kek seed kid alg kl p g hpub hr hc hsa hL2 hkl hp0 hpw hg hkey hn halg)
+    (fun kek kid hn => C03.kek_agree_dh C keyP keyR d.kekRnd kek seed kid alg kl p g hpub hr hc hsa hL2 hkl hp0 hpw hg hgrp hvalid_group hvalid_eph hkey hn halg)
 
 /-- The GCM parameters the library emits are `SEQUENCE { OCTET STRING nonce, INTEGER 16 }` and the
     nonce is read back from them unchanged. -/
